@@ -106,6 +106,12 @@ func infoFromCell(cell *hrpc.Cell) (hrpc.RegionInfo, error) {
 	if c := bytes.IndexByte(cell.Row, ','); c < 0 || bytes.LastIndexByte(cell.Row, ',') == c {
 		return nil, fmt.Errorf("invalid region name in %q", cell)
 	}
+	// the timestamp starts with a digit; in particular a name must not look
+	// like the key used to search the regions cache ("table,key,:"), which
+	// assumes it never finds an exact match
+	if id := cell.Row[bytes.LastIndexByte(cell.Row, ',')+1:]; len(id) == 0 || id[0] < '0' || id[0] > '9' {
+		return nil, fmt.Errorf("invalid region name in %q", cell)
+	}
 	var namespace []byte
 	if !bytes.Equal(regInfo.TableName.Namespace, defaultNamespace) {
 		// if default namespace, pretend there's no namespace
